@@ -143,7 +143,7 @@ func C10(r *drv.Run) {
 		src := gen.RenderProgram(p)
 		sm := gen.NewSampler(rng, p, []byte("ab\n "))
 		tx := sm.Inputs(p.Commands[0].Body, 8, maxLenFor(p, 8))
-		c := wire.Case{Op: "run", Src: []byte(src), Texts: tx, StepBudget: 3_000_000}
+		c := wire.Case{Op: "run", Src: []byte(src), Texts: tx, StepBudget: 1_000_000}
 		return &drv.Item{Case: c, Check: func(res *wire.Result) {
 			r.Count("random_programs", 1)
 			c10Check(r, src, tx, &c, res, false, "random")
@@ -158,6 +158,12 @@ func c10Check(r *drv.Run, src string, texts [][]byte, c *wire.Case, res *wire.Re
 	if res.Died {
 		if res.Guard == "wall" {
 			r.Inconclusive("wall-clock watchdog fired")
+			return
+		}
+		if res.Guard != "" && scope == "random" {
+			// deeper random programs: legitimate exponential backtracking can exhaust the CPU/heap guard
+			// before the step budget; like an over-budget run it is skipped, not judged
+			r.Count("random_runs_over_budget_skipped", 1)
 			return
 		}
 		sig := "worker-died:" + classifyFatal(res.Stderr)
